@@ -802,6 +802,11 @@ func c14Gen(c *Ctx) {
 		f := selFns[i%5]
 		b := &c14B{f: f}
 		ml := 8
+		if f != fFilter && i%7 == 3 { // many distinct values: policies that depend on how many different elements were kept so far
+			maxv = []int{10, 12, 17, 33, 59}[r.Intn(5)]
+			ml = 12 + r.Intn(40)
+			t.C.Count("many-distinct-values", "values 0..9 / ..11 / ..16 / ..32 / ..58, 12..51 elements")
+		}
 		if i%23 == 5 { // long slices: thresholds on the length (pre-sizing passes, small-input fast paths)
 			ml = 60 + r.Intn(160)
 			t.C.Count("long-slices", "60..220 elements")
@@ -846,6 +851,11 @@ func c14Gen(c *Ctx) {
 		f := ipFns[i%5]
 		b := &c14B{f: f}
 		ml := 8
+		if f != fFilterIP && i%7 == 3 {
+			maxv = []int{10, 12, 17, 33, 59}[r.Intn(5)]
+			ml = 12 + r.Intn(40)
+			t.C.Count("many-distinct-values", "values 0..9 / ..11 / ..16 / ..32 / ..58, 12..51 elements")
+		}
 		if i%23 == 5 { // long slices: thresholds on the length (pre-sizing passes, small-input fast paths)
 			ml = 60 + r.Intn(160)
 			t.C.Count("long-slices", "60..220 elements")
@@ -1276,5 +1286,5 @@ func c14Describe(in []int64) string {
 
 func init() {
 	Register(&Prop{ID: "C14", Pure: true, Num: 14, SpecMode: "rel", Gen: c14Gen, Impl: c14Impl, Shrink: c14Shrink, Describe: c14Describe,
-		Rule: "slices.go: arguments are windows (array, offset, len, cap) on real arrays, element values 0..3 (sometimes 0..7), lengths 0..8 and nil; dst layouts nil / own buffer with capacity 0, small, large / s1[:0] / s1 / s2[:0] / s1[:0:c] (spills) / shifted window of s1's array; s2 may be s1 or a sub-window of it; index, length and chunk arguments -2..10 and +-2^60; exhaustive small scopes as listed in the notes. FlexSlice: 1-60 operations from the zero value or from a slice with spare capacity (caps 8, 9, 12, 16, 17, 32, 36 and lengths at cap/4, cap/4+1), bursts of 0/1/2/3/5/9/17 values, the capacity seen after every Append recorded into the case. distinct = distinct case; non-trivial = a selection that keeps at least one and rejects at least one element / a scalar query on a slice of length >= 2 / a clamping call on a non-empty slice / a chunking with 1 <= size < len / a FlexSlice sequence of >= 3 operations during which the capacity changed"})
+		Rule: "slices.go: arguments are windows (array, offset, len, cap) on real arrays, element values 0..3 (sometimes 0..7; one case in seven of the selecting functions: 12..51 elements over up to 59 distinct values), lengths 0..8 and nil; dst layouts nil / own buffer with capacity 0, small, large / s1[:0] / s1 / s2[:0] / s1[:0:c] (spills) / shifted window of s1's array; s2 may be s1 or a sub-window of it; index, length and chunk arguments -2..10 and +-2^60; exhaustive small scopes as listed in the notes. FlexSlice: 1-60 operations from the zero value or from a slice with spare capacity (caps 8, 9, 12, 16, 17, 32, 36 and lengths at cap/4, cap/4+1), bursts of 0/1/2/3/5/9/17 values, the capacity seen after every Append recorded into the case. distinct = distinct case; non-trivial = a selection that keeps at least one and rejects at least one element / a scalar query on a slice of length >= 2 / a clamping call on a non-empty slice / a chunking with 1 <= size < len / a FlexSlice sequence of >= 3 operations during which the capacity changed"})
 }
